@@ -244,6 +244,34 @@ def _discharge_plain(obligs, outdir, timeout=20, jobs=16, all_solvers=False, ord
             kw = {"order": order} if order else {}
             for k, r in zip(keys, ex.map(lambda s: decide(s, outdir, timeout, all_solvers=all_solvers, **kw), keys)):
                 uniq[k] = r
+        if all_solvers:
+            # what no solver decided directly: the purified weakening (sound: only `unsat` is accepted), as in the quick tier
+            first = {}
+            for i, s in enumerate(smts):
+                if uniq[s]["verdict"] == "unknown" and s not in first:
+                    first[s] = i
+            work = []
+            for s, i in first.items():
+                p = purify(obligs[i].hyps, obligs[i].goal)
+                if p:
+                    ps = to_smt2(p[0], p[1])
+                    ppath = os.path.join(outdir, "%s.purified.smt2" % hashlib.sha1(ps.encode()).hexdigest()[:16])
+                    with open(ppath, "w") as f:
+                        f.write(ps)
+                    work.append((s, ppath))
+
+            def pur(w):
+                s, ppath = w
+                winner, times = race_files([("z3-5.1 (purified)", "z3-5.1", ppath, {"unsat"}),
+                                            ("cvc5-1.0.3 (purified)", "cvc5-1.0.3", ppath, {"unsat"})], timeout)
+                return s, winner, times
+            with ThreadPoolExecutor(max_workers=max(1, jobs // 2)) as ex:
+                for s, winner, times in ex.map(pur, work):
+                    r = dict(uniq[s])
+                    r["times"] = dict(r["times"], **times)
+                    if winner:
+                        r["verdict"], r["by"] = "unsat", winner[0]
+                    uniq[s] = r
         return [uniq[s] for s in smts]
 
     def phase1(s):
